@@ -107,6 +107,55 @@ var mutationKinds = []string{
 	"call-arity", "call-argtype", "call-novalue", "expr-stmt", "float-to-int", "op-undefined", "op-swap",
 	"div-zero", "decl-type-change", "named-mismatch", "return-count", "shadow-legal", "untyped-bool-legal",
 	"uint-negative", "compare-mismatch", "string-arith", "incdec-nonnumeric", "assign-func", "dup-param",
+	"unused-redeclared", "redeclared-legal", "stmt-after-return",
+}
+
+// typedLit is a constant of type t.
+func typedLit(t Ty) Expr {
+	switch classOf(t.B) {
+	case "int":
+		return mkConv(t, mkInt(1))
+	case "float":
+		return mkConv(t, mkLitF(1, 2))
+	case "str":
+		return mkConv(t, mkLitS(1))
+	}
+	return mkConv(t, mkLitB(true))
+}
+
+// redeclared builds  x := ..; x, y := ..  (x redeclared by the second short
+// declaration) followed by uses of y and, if useX, of x; with a function of
+// two results the shape is  a, x := f(); b, x := f().
+func redeclared(p *Prog, r *rand.Rand, fresh int, useX bool) []Stmt {
+	x, y, z := fresh, fresh+60, fresh+120
+	use := func(id int) Stmt { return &Assign{[]int{0}, []Expr{&Var{X: id}}} }
+	var out []Stmt
+	var f2 *Func
+	for _, f := range p.Funcs {
+		if len(f.Results) == 2 && r.Intn(2) == 0 {
+			f2 = f
+		}
+	}
+	if f2 != nil {
+		call := func() Expr {
+			var as []Expr
+			for _, q := range f2.Params {
+				as = append(as, typedLit(q.T))
+			}
+			return &Call{F: f2.Name, Args: as}
+		}
+		out = []Stmt{&Short{[]int{y, x}, []Expr{call()}}, &Short{[]int{z, x}, []Expr{call()}}, use(y), use(z)}
+	} else {
+		out = []Stmt{&Short{[]int{x}, []Expr{mkInt(1)}}, &Short{[]int{x, y}, []Expr{mkInt(2), mkLitS(1)}}, use(y)}
+		if r.Intn(2) == 0 {
+			// the redeclared variable is also assigned, still never read
+			out = append(out, &Assign{[]int{x}, []Expr{mkInt(3)}})
+		}
+	}
+	if useX {
+		out = append(out, use(x))
+	}
+	return out
 }
 
 // mutate applies one mutation of the given kind; false when the program has no suitable site.
@@ -267,7 +316,10 @@ func mutate(p *Prog, kind string, r *rand.Rand) bool {
 		case 3:
 			cnt = mkLitB(true)
 		default:
-			cnt = mkConv(basicTy("float64"), mkInt(2))
+			// (a typed constant count that is not an integer, such as float64(2)
+			// or string("s"), is accepted by go/types against the specification:
+			// C02 finding shift-count-typed-float; not generated)
+			cnt = mkLitF(5, 4)
 		}
 		*e = mkBin([]string{"shl", "shr"}[r.Intn(2)], *e, cnt)
 	case "bad-conversion":
@@ -608,6 +660,37 @@ func mutate(p *Prog, kind string, r *rand.Rand) bool {
 			// call of a non function
 			insertAt(&p.Main, 0, &Short{[]int{fresh}, []Expr{mkInt(1)}}, &ExprS{&Call{F: fresh}})
 		}
+	case "unused-redeclared":
+		b := randBlock()
+		insertAt(b, r.Intn(len(*b)+1), redeclared(p, r, fresh, false)...)
+	case "redeclared-legal":
+		b := randBlock()
+		insertAt(b, r.Intn(len(*b)+1), redeclared(p, r, fresh, true)...)
+	case "stmt-after-return":
+		// a function with results whose last statement is not terminating
+		var fs []*Func
+		for _, f := range p.Funcs {
+			if len(f.Results) > 0 && len(f.Body) > 0 {
+				fs = append(fs, f)
+			}
+		}
+		if len(fs) == 0 {
+			return false
+		}
+		f := fs[r.Intn(len(fs))]
+		var st Stmt = &Assign{[]int{0}, []Expr{mkInt(1)}}
+		switch r.Intn(3) {
+		case 0:
+			var as []Expr
+			g := p.Funcs[r.Intn(len(p.Funcs))]
+			for _, q := range g.Params {
+				as = append(as, typedLit(q.T))
+			}
+			st = &ExprS{&Call{F: g.Name, Args: as}}
+		case 1:
+			st = &Block{[]Stmt{&Assign{[]int{0}, []Expr{mkInt(1)}}}}
+		}
+		f.Body = append(f.Body, st)
 	case "dup-param":
 		for _, f := range p.Funcs {
 			if len(f.Params) >= 2 && f.Params[0].X != 0 {
